@@ -473,6 +473,16 @@ func buildContractState(tx UpdateStateTx, fces []consensus.FileContractElementDi
 		case created:
 			state.Confirmed = append(state.Confirmed, fce)
 			log.Debug("confirmed contract")
+			// revisions confirmed in the same block are folded into the
+			// created element: its revision is the confirmed revision
+			fc := fce.FileContract
+			if revert {
+				fc.RevisionNumber = 0
+			}
+			state.Revised = append(state.Revised, RevisedContract{
+				ID:           fce.ID,
+				FileContract: fc,
+			})
 		case rev != nil:
 			if revert {
 				state.Revised = append(state.Revised, RevisedContract{
